@@ -1,7 +1,7 @@
 (* Enc2Examples: model-level witnesses (vm_compute on dumps only) for Proofs/Enc2Samples.v:
    the class D30 on a decoded map, and non-vacuity of the image theorems. *)
-From RM Require Import Model.EncPathSpec Model.EncObjCarry Proofs.EncRound Proofs.EncImage Proofs.EncMapImage
-     Proofs.Enc2Samples Proofs.EncObjectsRT.
+From RM Require Import Model.EncPathSpec Model.EncObjCarry Model.EncTimingSpec Proofs.EncRound Proofs.EncImage Proofs.EncMapImage
+     Proofs.Enc2Samples Proofs.EncObjectsRT Proofs.EncTimingExample Proofs.Enc2Timing.
 From RM Require Import Gen.Generated.
 Open Scope Z_scope.
 
@@ -72,3 +72,21 @@ Lemma samples_img_example :
 Proof. vm_compute. repeat split; reflexivity. Qed.
 
 Print Assumptions decoded_sample_ok_refuted.
+
+(* non-vacuity of Enc2Timing.decoded_timing_round_trip_classes: the taiko file of
+   Proofs/EncTimingExample.v (same-time groups, kiai, several velocities, a second timing point) is
+   outside every class, and its velocities survive -100/sv -> 100/-x *)
+Lemma rt_classes_example :
+  match decode_beatmap stub_dist (lines_of_text t02d_text) with
+  | Done m =>
+      match enc_control_points stub_dist stub_events m with
+      | Done c => rt_classes (tpg_mode g_taiko) c = true /\ svs_round_trip c = true /\
+                  length (cp_difficulty c) = 5%nat /\ length (enc_records c) = 7%nat
+      | _ => False
+      end
+  | _ => False
+  end.
+Proof. vm_compute. repeat split; reflexivity. Qed.
+
+Lemma t02d_lines_no_lf : forallb (fun l => negb (memb ch_lf l)) (lines_of_text t02d_text) = true.
+Proof. vm_compute. reflexivity. Qed.
